@@ -67,6 +67,27 @@ def _case_worker(args):
         shutil.rmtree(root, ignore_errors=True)
 
 
+def tree_fingerprint():
+    """Fingerprint of the bfg9000 sources a check runs against: a check whose
+    subject changes while it runs mixes two trees (the preloaded modules of
+    the forked cases and the fresh interpreters the backend launches) and is
+    not believed."""
+    repo = os.environ.get('BFGSIM_REPO') or '/repo'
+    h = hashlib.sha256()
+    top = os.path.join(repo, 'bfg9000')
+    for base, dirs, files in os.walk(top):
+        dirs[:] = sorted(d for d in dirs if d != '__pycache__')
+        for f in sorted(files):
+            if f.endswith('.py'):
+                p = os.path.join(base, f)
+                try:
+                    with open(p, 'rb') as fh:
+                        h.update(p.encode() + b'\0' + fh.read())
+                except OSError:
+                    pass
+    return h.hexdigest()[:16]
+
+
 def match_known(sig, known):
     for k in known:
         if k.get('status') != 'known':
@@ -309,6 +330,7 @@ class Check:
                 'known_findings_seen': sorted(self.known_seen),
                 'harness_errors': len(self.harness_errors),
                 'jobs': self.jobs,
+                'tree_fingerprint': getattr(self, 'tree0', None),
                 'determinism_selftest': getattr(self, 'selftest', None),
                 'real_components': describe.get('real', []),
                 'stub_components': describe.get('stubs', []),
@@ -374,6 +396,7 @@ class Check:
 
     def run(self):
         t0 = time.monotonic()
+        self.tree0 = tree_fingerprint()
         self.out('check {} tier={} VERIF_SEED={} jobs={} budget={}s'.format(
             self.prop, self.tier, self.seed, self.jobs, self.budget))
         try:
@@ -387,6 +410,10 @@ class Check:
         finally:
             shutil.rmtree(self.scratch, ignore_errors=True)
         wall = time.monotonic() - t0
+        if tree_fingerprint() != self.tree0:
+            self.harness_errors.append({
+                'seed': None, 'error': 'the bfg9000 source tree changed '
+                'while the check was running; results are not valid'})
         self.write_evidence(wall)
         for k in self.known_seen.values():
             self.out('KNOWN-FINDING: property={} {}'.format(
